@@ -20,7 +20,8 @@ RULE = ('molecule (corpus, curated, constructive; substrate groups grafted so th
         'products are compared atom-wise, counted, checked for unique numbers, stereo frame condition, identity template, '
         'cage substrates with ring hetero atoms; exhaustive mode (one_shot=False) of the single-pattern reactor template: only template-named elements may change. invariance under renumbering and reactant order. non-trivial = >= 1 match and the template deletes or adds an atom; '
         'distinct by (template, substrate string)'
-        '; also: fix_aromatic_rings=False with Kekule inputs: no aromatic product bond.')
+        '; also: fix_aromatic_rings=False with Kekule inputs: no aromatic product bond.'
+        '; also: alkene shard: labelled tri- and tetrasubstituted double bonds carrying the template-named group on an alkene carbon x ten templates x several numberings.')
 ASSUMPTIONS = ['the set of matches itself is C07\'s subject: the model patches the matches the library reports and checks their count',
                'model details fixed by the property text: one product per match; unmatched atoms keep all attributes incl. stored '
                'hydrogen count; matched-but-absent unmasked atoms are removed with fragments that lose every path to a kept matched atom',
